@@ -185,7 +185,7 @@ def run_case(case: dict) -> dict:
             continue
         v2, o2 = effect_oracles(spec, run)
         obs.update(o2)
-        for x in vs + v2:
+        for x in oracles.attribute(vs + v2, run, "C02"):
             x["schedule"] = s
             x["spec"] = spec["name"]
             violations.append(x)
